@@ -42,7 +42,12 @@ template <class Alloc, class T, class SizeType,
           typename std::enable_if<!CanReallocate<Alloc>::value, bool>::type = true>
 inline T *Reallocate(Alloc &alloc, T *p, SizeType oldCapa, SizeType newCapa, SizeType size) {
   T *newPtr = alloc.allocate(newCapa);
-  (void)amc::uninitialized_relocate_n(p, size, newPtr);
+  try {
+    (void)amc::uninitialized_relocate_n(p, size, newPtr);
+  } catch (...) {
+    alloc.deallocate(newPtr, newCapa);
+    throw;
+  }
   alloc.deallocate(p, oldCapa);
   return newPtr;
 }
@@ -54,7 +59,12 @@ void SmallVectorBase<T, Alloc, SizeType>::grow(uintmax_t minSize, bool exact) {
     SizeType oldCapa = _size == std::numeric_limits<SizeType>::max() ? _capa : _size;
     newCapa = SafeNextCapacity(oldCapa, minSize, exact);
     T *dynStorage = this->allocate(newCapa);
-    (void)amc::uninitialized_relocate_n(_storage.ptr(), _capa, dynStorage);
+    try {
+      (void)amc::uninitialized_relocate_n(_storage.ptr(), _capa, dynStorage);
+    } catch (...) {
+      this->deallocate(dynStorage, newCapa);
+      throw;
+    }
     _storage.setDyn(dynStorage);
     _size = _capa;
   } else {
